@@ -231,4 +231,75 @@ theorem c05_settles_within_history (p : Params) (bal : List (Nat × Int)) (h t :
   rw [run_split]
   exact c05_settles_within s hR k N M hN hM hNb hMb ops hwf hnh hba hcnt
 
+-- ---------------------------------------------------------------------------------------------
+-- non-vacuity
+
+def c05bTk : Tk := { ok := true, kycIgnore := true, kycApproved := false, kycId := 0 }
+
+def c05bPl1 : WagerPayload :=
+  { market := 1, odds := 11, oddsVal := some ⟨2 * PREC⟩, mult := ⟨PREC⟩, allOdds := [(11, ⟨PREC⟩), (12, ⟨PREC⟩)] }
+def c05bPl2 : WagerPayload :=
+  { market := 2, odds := 22, oddsVal := some ⟨3 * PREC⟩, mult := ⟨PREC⟩, allOdds := [(21, ⟨PREC⟩), (22, ⟨PREC⟩), (23, ⟨PREC⟩)] }
+
+/-- the empty chain with batch sizes `n` for both end-blockers -/
+def c05bInit (n : Nat) : State := {
+  bal := [(1, 5000), (6, 300), (7, 300)],
+  params := { betBatch := n, obBatch := n, houseMin := 10, betMin := 2, betFee := 1, houseMaxW := 3 }, height := 1, time := 100 }
+
+/-- two markets; market 1 gets three participations and three bets, market 2 one participation and one bet;
+    market 1 is declared -/
+def c05bPre : List Op :=
+  [.marketAdd 0 c05bTk 1 50 5000 [11, 12] MS_ACTIVE, .marketAdd 0 c05bTk 2 50 5000 [21, 22, 23] MS_ACTIVE,
+   .deposit 1 c05bTk 1 500 0, .deposit 1 c05bTk 1 300 0, .deposit 1 c05bTk 1 200 0, .deposit 1 c05bTk 2 400 0,
+   .wager 6 c05bTk 901 100 c05bPl2, .wager 7 c05bTk 902 50 c05bPl1, .wager 6 c05bTk 903 40 c05bPl1, .wager 7 c05bTk 904 30 c05bPl1,
+   .marketResolve c05bTk 1 150 MS_DECLARED [11]]
+
+/-- the continuation: a wager and a deposit on the resolved market 1 (both rejected), market 2 is cancelled in
+    block 2, three end-blocks -/
+def c05bOps : List Op :=
+  [.wager 6 c05bTk 950 40 c05bPl1, .endBlock, .newBlock 2 200, .marketResolve c05bTk 2 250 MS_CANCELED [],
+   .deposit 1 c05bTk 1 100 0, .endBlock, .newBlock 3 300, .endBlock]
+
+/-- Batch sizes 2: market 1 waits with W = 3 pending bets and P = 3 unpaid participations, so the bound is
+    ⌊3/2⌋ + ⌊3/2⌋ + 1 = 3 end-blocks. All hypotheses of `c05_settles_within` hold for the continuation `c05bOps`
+    (which resolves a second market on the way); after two end-blocks market 1 is NOT completely settled (book
+    RESOLVED, one participation unpaid), after the third it is: THE BOUND IS ATTAINED. -/
+example :
+    let s := run (c05bInit 2) c05bPre
+    signedOk c05bPre = true ∧ signedOk c05bOps = true ∧ noHalt s c05bOps = true ∧ batchAtLeast 2 2 c05bOps = true ∧
+    s.mqueue = [1] ∧ s.obqueue = [] ∧ pendCount s 1 = 3 ∧ unpaidOf s 1 = 3 ∧ settleBound 2 2 s 1 = 3 ∧
+    endBlocks c05bOps = 3 ∧ endBlocks (c05bOps.take 7) = 2 ∧
+    (let s2 := run s (c05bOps.take 7)
+     s2.mqueue = [] ∧ s2.obqueue = [1, 2] ∧ statusOf s2 1 = some OB_RESOLVED ∧ unpaidOf s2 1 = 1) ∧
+    (let s3 := run s c05bOps
+     s3.mqueue = [] ∧ s3.obqueue = [] ∧ s3.pending = [] ∧ statusOf s3 1 = some OB_SETTLED ∧ unpaidOf s3 1 = 0 ∧
+     statusOf s3 2 = some OB_SETTLED ∧ unpaidOf s3 2 = 0 ∧ s3.bets.map (·.status) = [BS_SETTLED, BS_SETTLED, BS_SETTLED, BS_SETTLED]) := by
+  decide +kernel
+
+/-- the theorem applied to that history: market 1 is completely settled after `c05bOps` -/
+example : FullySettled (run (run (c05bInit 2) c05bPre) c05bOps) 1 := by
+  have hR : Reach (run (c05bInit 2) c05bPre) :=
+    run_reach _ _ (reach_init _ _ _ _ (by decide)) (signedOk_spec _ (by decide))
+  have h := c05_settles_within _ hR 1 2 2 (by decide) (by decide) (by decide +kernel) (by decide +kernel) c05bOps
+    (by decide) (by decide +kernel) (by decide) (by decide +kernel)
+  have e : (run (c05bInit 2) c05bPre).obqueue ++ (run (c05bInit 2) c05bPre).mqueue.take 1 = [1] := by decide +kernel
+  rw [e] at h
+  exact h 1 (List.mem_singleton.mpr rfl)
+
+/-- Batch size 1, two markets queued (W = 3 + 1 pending bets, P = 3 + 1 participations): the bound for everything
+    queued is 4 + 4 + 1 = 9 end-blocks, for the first market alone 3 + 3 + 1 = 7; the hypotheses hold for a run of
+    nine end-blocks, and the queues are in fact drained by the sixth and not before (bets: blocks 1–4, participations
+    of the first book: blocks 3–5, of the second: block 6 — the pay-out overlaps the bet settlement, and with batch
+    size 1 every division is exact; neither is exploited by the bound). -/
+example :
+    let s := run (c05bInit 1) (c05bPre ++ [.marketResolve c05bTk 2 250 MS_CANCELED []])
+    let ops := (List.range 9).flatMap (fun i => [Op.endBlock, Op.newBlock (i + 2) (200 + i)])
+    signedOk ops = true ∧ noHalt s ops = true ∧ batchAtLeast 1 1 ops = true ∧
+    s.mqueue = [1, 2] ∧ pendingWork s = 4 ∧ partWork s = 0 ∧ wsum (unpaidOf s) s.mqueue = 4 ∧
+    settleBoundAll 1 1 s = 9 ∧ settleBound 1 1 s 1 = 7 ∧ endBlocks ops = 9 ∧
+    (run s (ops.take 10)).obqueue ≠ [] ∧
+    (let s' := run s (ops.take 12)
+     s'.mqueue = [] ∧ s'.obqueue = [] ∧ s'.pending = [] ∧ statusOf s' 1 = some OB_SETTLED ∧ statusOf s' 2 = some OB_SETTLED) := by
+  decide +kernel
+
 end Sge.Core
